@@ -128,6 +128,10 @@ func DecodeAction(data []byte) (Action, error) {
 	if err != nil {
 		return a, err
 	}
+	if a.Len() < 8 {
+		// e.g. a length that wraps around when it is rounded up to a multiple of 8
+		return a, errors.New("the decoded action reports a size below 8 bytes")
+	}
 	return a, nil
 }
 
